@@ -797,6 +797,19 @@ def meta15Cases (seed idx : Nat) : List Case :=
         [{ base with id := id ++ s!"/split{k}", entry := .attr { a with items := a.items.take k },
                      item := base.item.withAttrs (.deriveEx { a with items := a.items.drop k } :: attrs) }]
       else []
+    -- … with foreign attributes between the parts of the list
+    let sep : List Attr := if attrs.isEmpty then [.foreign ["allow", "(", "dead_code", ")"]] else attrs
+    let cSplit := cSplit ++
+      (if n ≥ 2 then
+        [{ base with id := id ++ s!"/dsplit{k}", entry := .derive,
+                     item := base.item.withAttrs (.deriveEx { a with items := a.items.take k } :: sep ++
+                                                  [.deriveEx { a with items := a.items.drop k }]) }]
+       else []) ++
+      (if n ≥ 3 then
+        [{ base with id := id ++ "/split3", entry := .attr { a with items := a.items.take 1 },
+                     item := base.item.withAttrs (.deriveEx { a with items := (a.items.drop 1).take 1 } :: sep ++
+                                                  [.deriveEx { a with items := a.items.drop 2 }]) }]
+       else [])
     let kAll := kindsOfArgs a
     let solos : List Case := (a.items.zipIdx).filterMap fun (it, j) =>
       let aj : Args := { a with items := [it] }
